@@ -26,18 +26,20 @@ extern "C" unsigned vp_c18_key_code(const QByteArray *s);   // same for byte arr
 extern "C" void vp_c18_empty_str(QString *out);
 extern "C" void vp_c18_empty_bytes(QByteArray *out);
 // equality of keys / values: strings built by the string model are compared through their codes (two 1-unit strings are equal iff
-// their units are equal; a 1-unit string never equals a string of another length); anything else - and two strings that are both
-// not 1 unit long - goes through the real operator==
+// their units are equal; a 1-unit string never equals a string of another length); two model strings that are both not 1 unit
+// long go through the real operator==; strings that do not come from the string model are a model limit (flagged)
 static inline bool vpEqS(const QString &a, const QString &b)
 {
     unsigned x = vp_c18_jid_code(&a), y = vp_c18_jid_code(&b);
-    if (x == C18_UNKNOWN || y == C18_UNKNOWN || (x == 0 && y == 0)) return a == b;
+    vp_c18_limit(x != C18_UNKNOWN && y != C18_UNKNOWN);   // keys of these containers are built by the string model
+    if (x == 0 && y == 0) return a == b;
     return x == y;
 }
 static inline bool vpEqB(const QByteArray &a, const QByteArray &b)
 {
     unsigned x = vp_c18_key_code(&a), y = vp_c18_key_code(&b);
-    if (x == C18_UNKNOWN || y == C18_UNKNOWN || (x == 0 && y == 0)) return a == b;
+    vp_c18_limit(x != C18_UNKNOWN && y != C18_UNKNOWN);
+    if (x == 0 && y == 0) return a == b;
     return x == y;
 }
 #ifndef MH_CAP
